@@ -397,6 +397,14 @@ def CleanRun (ignore : Bool) : List Op → List (Ev Val) → Prop
   | [], evs => Clean ignore evs
   | op :: ops, evs => Clean ignore evs ∧ CleanRun ignore ops (opEvents ignore op op.s0 evs)
 
+/-- `Clean` / `CleanRun` as Booleans -/
+def cleanB (ignore : Bool) (evs : List (Ev Val)) : Bool :=
+  evs.all fun ev => match ev with | .error e => terminal ignore e | .ok _ => true
+
+def cleanRunB (ignore : Bool) : List Op → List (Ev Val) → Bool
+  | [], evs => cleanB ignore evs
+  | op :: ops, evs => cleanB ignore evs && cleanRunB ignore ops (opEvents ignore op op.s0 evs)
+
 /-- an operator together with the current state of its function and the log of its successful
 `write` calls (meaningful for sinks) -/
 structure OpSt where
